@@ -171,6 +171,9 @@ func (w *World) persistAll() {
 			if b.vbmap[vb][r] < 0 {
 				continue
 			}
+			if v.copies[r].UUID == v.failover[0].UUID && v.copies[r].Persisted == v.high {
+				continue
+			}
 			v.copies[r].UUID = v.failover[0].UUID
 			v.copies[r].Persisted = v.high
 			w.jl(&journal.Ev{K: journal.KPersist, Vb: vb, I: int64(r), U: v.copies[r].UUID, U2: v.copies[r].Persisted, S: "quiesce"})
